@@ -54,6 +54,10 @@ def _cases(tier, rng):
         if len(outs) >= 2:
             o1, o2 = rng.sample(outs, 2)
             yield {"dag": d, "output": o1, "second_output": o2, "with_dag": True}
+        if rng.random() < 0.15:
+            # history: a construct_dag() block that was left through an exception comes first
+            yield {"dag": d, "output": rng.choice(outs), "with_dag": rng.random() < 0.5,
+                   "aborted_block_first": rng.choice(("raise-in-block", "missing-input"))}
 
 
 def _check(case):
@@ -69,6 +73,22 @@ def _check(case):
     except dag.NotComputable:
         return []
     bad = []
+    from pipefunc.lazy import task_graph
+    if case.get("aborted_block_first"):
+        # same output names and root inputs, other functions: what is built in the aborted block must not be
+        # handed to a later request outside it
+        other = dag.build({**d, "funcs": [{**f, "name": f["name"] + "_v"} for f in d["funcs"]]}, lazy=True)
+        try:
+            with construct_dag():
+                if case["aborted_block_first"] == "raise-in-block":
+                    other(out, **kw)
+                    raise KeyError("user error inside the block")
+                other(out)  # (required inputs missing, unless the output needs none)
+                raise KeyError("user error inside the block")
+        except Exception:  # noqa: BLE001
+            pass
+    if task_graph() is not None:
+        return ["a task graph is installed outside any construct_dag() block"]
     p = dag.build(d, lazy=True)
     log: list = []
     progs.set_log(log)
